@@ -48,3 +48,28 @@ P.fn(FR + 'Renderable.filename', name='Renderable.filename', params=dict(self='R
      ],
      allocates=True, skip_frame=True, calls={'Filenames': 'Filenames'})
 P.unverified_surrounding('templates emitting each child exactly once, footnote gathering, Renderable.__str__ routing: bounded native rendering check (bounded/render-split)')
+
+# ---------------------------------------------------------------------------------------------- the split level chosen by Renderer.render
+# (prefix of the function up to its first loop): a filename template that names a single file - no blank, no bracket - forces
+# everything into one file (level -10); otherwise the configured split level is used
+P.cls('Config')
+P.cls('RDoc', fields=dict(config='dict[str,dict[str,Any2]]', userdata='dict[str,str]'))
+P.cls('Any2', universal=True)
+P.uninterp('CFG_SPLIT', [], 'int')
+P.uninterp('CFG_TEMPLATE', [], 'str')
+P.fn('cfg_split', params={}, returns='int', ensures=['result == CFG_SPLIT()'], trusted=True, modifies=[], notes='config["files"]["split-level"]')
+P.fn('cfg_template_strip', params={}, returns='str', ensures=['result == str_strip(CFG_TEMPLATE())'], trusted=True, modifies=[],
+     notes='config["files"]["filename"].strip()')
+P.fn('opaque_call', params=dict(a='opaque=0', b='opaque=0', c='opaque=0', d='opaque=0'), returns='opaque', trusted=True, allocates=True, modifies=[])
+P.fn('Renderer.keys', params=dict(self='Renderer'), returns='list[str]', trusted=True, allocates=True, modifies=[])
+P.fn('Renderer.cacheFilenames', params=dict(self='Renderer', node='opaque'), returns='none', trusted=True, allocates=True,
+     modifies=[Mod('dict:RNode,str?', 'True')], ensures=['self.level == old(self.level)'])
+T_ = 'str_strip(CFG_TEMPLATE())'
+P.fn(FR + 'Renderer.render', name='Renderer.render/level', params=dict(self='Renderer', document='opaque', postProcess='opaque=0'), returns='none',
+     stop_before_loop=0, locals={'names': 'list[str]'},
+     end_ensures=['self.level == (-10 if (" " not in %s and "[" not in %s) else CFG_SPLIT())' % (T_, T_)],
+     allocates=True, skip_frame=True,
+     calls={"config['files']['split-level']": 'cfg_split', "config['files']['filename'].strip": 'cfg_template_strip', 'self.keys': 'Renderer.keys',
+            'mixin': 'opaque_call', 'Filenames': 'Filenames/o', "config['images']['imager'].split": 'Renderer.keys/o', 'self.cacheFilenames': 'Renderer.cacheFilenames', 'document.config': 'opaque_call'})
+P.fn('Renderer.keys/o', params={}, returns='list[str]', trusted=True, allocates=True, modifies=[])
+P.fn('Filenames/o', params=dict(a='opaque=0', b='opaque=0', c='opaque=0', d='opaque=0'), returns='Gen', ensures=['fresh(result)'], trusted=True, allocates=True, modifies=[])
